@@ -288,7 +288,7 @@ def paramLoop (term : Option UInt8) (n : Nat) : Nat → Slots → Bytes → Res 
             paramLoop term n fuel (st.set p ⟨n - x.1, x.2.1, x.2.2.1⟩) (nextParam x.2.2.2)
         | none => (skipU false inp).bind fun r6 => paramLoop term n fuel st (nextParam r6)
 
-/-- indices into `tk_names[]` / `params[]` (checked against `Gen.paramSlots` in `Mhd.Proofs.Auth`) -/
+/-- indices into `tk_names[]` / `params[]` (checked against `Gen.paramNames` / `Gen.paramSlots` by `Mhd.C14.param_table`) -/
 def kNonce : Nat := 0
 def kOpaque : Nat := 1
 def kAlgorithm : Nat := 2
